@@ -97,7 +97,7 @@ func c01Oracle(e *txgEnv, tx *common.VersionedTransaction) (string, string) {
 func TestMC_C01(t *testing.T) {
 	c := verifmc.Start(t, "C01", "exploration")
 	defer c.Finish()
-	c.SetRule("full product of asset {XIN,BTC,never-seen} x input lists (all sequences over {xin5, xin7, btc5, missing, duplicate-of-previous, deposit(a), mint(a), genesis}; a over the 6-amount menu only when the list has a deposit/mint) x output lists (all sequences over kind x amount, amounts {1u,5,7,12,2^64u,2^256-1u} and 0) x ledger states x snapshot times (all > epoch+1ns); quick: lists of length 1..2; thorough: larger output alphabet, 6 ledgers, 3 times, plus input lists of length 3 and output lists of length 3; correct signatures, type-appropriate extra/references; every transaction goes through Marshal->Unmarshal; a case is counted distinct/non-trivial when its (ledger,time,shape) is new and the real TransactionType() of the decoded transaction is not Unknown")
+	c.SetRule("full product of asset {XIN,BTC,never-seen} x input lists (all sequences over {xin5, xin7, btc5, missing, duplicate-of-previous, deposit(a), mint(a), genesis}; a over the 6-amount menu only when the list has a deposit/mint) x output lists (all sequences over kind x amount, amounts {1u,5,7,12,2^64u,2^256-1u} and 0) x ledger states x snapshot times (all > epoch+1ns) x validation mode {fork=false, fork=true (finalized-snapshot path)}; quick: lists of length 1..2; thorough: larger output alphabet, 6 ledgers, 3 times, plus input lists of length 3 and output lists of length 3; correct signatures, type-appropriate extra/references; every transaction goes through Marshal->Unmarshal; a case is counted distinct/non-trivial when its (ledger,time,shape) is new and the real TransactionType() of the decoded transaction is not Unknown")
 	c.Assume("signatures are always the correct ones (authorization is C02)", "ledger states are prefixes built by a deterministic wallet through real Validate+LockInputs+WriteTransaction+WriteSnapshot", "one-time output keys are unique per case so that the key reservation side effect of Validate (LockGhostKeys) cannot couple cases; they are valid prime-order points, not derived for an account", "valid signatures are produced with a fixed nonce per key (harness-only keys)")
 
 	var ec txgEnvCache
@@ -124,6 +124,32 @@ func TestMC_C01(t *testing.T) {
 			if res.Stage != "validated" {
 				c.Outcome(res.Stage)
 				return
+			}
+			// the same decoded transaction validated the way a finalized snapshot's
+			// transactions are (fork=true): reservations by other transactions no
+			// longer reject, every other clause of the statement must still hold
+			if dec, ferr, fp := txgValidateRaw(e, res.Raw, e.Times[ti], true); fp == nil && ferr == nil {
+				c.Eval(1)
+				c.Outcome("accept:fork")
+				if res.Err != nil {
+					c.Outcome("accept:fork-only")
+					c.Distinct("fork|" + key)
+				}
+				if vk, desc := c01Oracle(e, dec); vk != "" {
+					raw, ts := res.Raw, e.Times[ti]
+					c.ViolationChecked("fork:"+vk, fmt.Sprintf("validated with fork=true (finalized-snapshot path): %s; ledger %s time %s shape %s", desc, e.Name, e.TimeNames[ti], shape.Key()),
+						map[string]any{"ledger": e.recipe(), "snapshot_time": ts, "shape": shape.Key(), "transaction_hex": txgHex(raw), "fork": true},
+						func() bool {
+							d2, err, p := txgValidateRaw(e, raw, ts, true)
+							if err != nil || p != nil {
+								return false
+							}
+							k2, _ := c01Oracle(e, d2)
+							return k2 == vk
+						})
+				}
+			} else if ferr != nil {
+				c.Outcome("reject:fork")
 			}
 			if res.Tx.TransactionType() != common.TransactionTypeUnknown {
 				c.Distinct(key)
@@ -170,5 +196,36 @@ func TestMC_C01(t *testing.T) {
 	// the per-class guards presuppose that every ledger was visited (not a run cut by the wall-clock cap)
 	c.Require(!complete || c.OutcomeCount("reject:invalid_input_asset") > 0 && c.OutcomeCount("reject:invalid_input_output_amount") > 0 && c.OutcomeCount("reject:invalid_input") > 0 && c.OutcomeCount("reject:input_locked_for_transaction") > 0,
 		"vacuous: asset / amount / duplicate / locked rejections not all reached")
+	c.Require(!complete || c.OutcomeCount("accept:fork-only") > 0, "vacuous: no transaction that only the fork=true validation admits (input reserved for another transaction)")
 	c.Require(!complete || len(accepted) >= 6, "vacuous: accepted transactions of only %d type/arity classes", len(accepted))
+}
+
+// TestMCRace_C01 is the separate free-running pass (go test -race): a stride
+// sample of the same product is validated by 16 workers against the shared
+// ledgers, exactly as TestMC_C01 does, so that an unsynchronised access on the
+// validation read path (which no enumeration of inputs can see) is reported by
+// the race detector. Verdicts are not evaluated here.
+func TestMCRace_C01(t *testing.T) {
+	c := verifmc.Start(t, "C01", "exploration")
+	defer c.Finish()
+	var ec txgEnvCache
+	defer ec.close()
+	amounts := txgC01Amounts()
+	items := txgItems(txgC01Blocks(false, ec.get), amounts)
+	stride := len(items)/64 + 1
+	var sub []int
+	for k := 0; k < len(items); k += stride {
+		sub = append(sub, k)
+	}
+	var n int64
+	var mu sync.Mutex
+	c.ParallelN(len(sub), "C01 race pass", func(_, k int) {
+		cnt := 0
+		txgRunItem(items[sub[k]], amounts, func(e *txgEnv, ti int, shape *txgShape, key string, res *txgResult) { cnt++ })
+		mu.Lock()
+		n += int64(cnt)
+		mu.Unlock()
+	})
+	verifmc.FreeExecutions.Add(n)
+	verifmc.RacePassDone("C01")
 }
